@@ -107,7 +107,7 @@ class ExprMixin:
                 if i == len(n.values) - 1:
                     outs.append(('val', s1, v))
                     continue
-                t, f = self.split(s1, ops.truth(v))
+                t, f = self.split(s1, self.truth_of(v, s1))
                 stop, go = (f, t) if is_and else (t, f)
                 if stop is not None:
                     outs.append(('val', stop, v))
@@ -123,7 +123,7 @@ class ExprMixin:
                 continue
             v = o[2]
             if isinstance(n.op, ast.Not):
-                outs.append(('val', o[1], VB(simplify(Not(ops.truth(v))))))
+                outs.append(('val', o[1], VB(simplify(Not(self.truth_of(v, o[1]))))))
             elif isinstance(n.op, ast.USub) and v.ty == 'int':
                 outs.append(('val', o[1], VI(-v.z)))
             else:
@@ -136,7 +136,7 @@ class ExprMixin:
             if o[0] == 'raise':
                 outs.append(o)
                 continue
-            t, f = self.split(o[1], ops.truth(o[2]))
+            t, f = self.split(o[1], self.truth_of(o[2], o[1]))
             if t is not None:
                 outs += self.ev(n.body, t)
             if f is not None:
@@ -226,18 +226,17 @@ class ExprMixin:
                 if r is not None:
                     return r
             fields = st.heap[v.a['ref']]
-            if a in fields:
+            if a in fields and fields[a].ty != 'unset':
                 return [('val', st, fields[a])]
-            q = self.repo.resolve_method(cls, attr)
-            if q is not None:
+            mem = self.repo.lookup_member(cls, attr)
+            if mem is not None and mem[0] == 'func':
+                q = mem[1]
                 fi = self.repo.func(q)
                 if 'property' in fi.decorators:
                     return self.call_function(q, [v], {}, st, node)
                 return [('val', st, Val('func', None, qual=q, bound=v))]
-            try:
-                return [('val', st, lift(self.repo.class_attr(cls, attr)))]
-            except KeyError:
-                pass
+            if mem is not None:
+                return [('val', st, lift(mem[1]))]
             raise Unsupported('attribute %s of object %s' % (attr, cls))
         if t == 'tok':
             if attr == 'text':
@@ -282,12 +281,22 @@ class ExprMixin:
             raise Unsupported('class attribute %s.%s' % (v.a['name'], attr))
         if t == 'slice':
             return [('val', st, v.a[{'start': 'lo', 'stop': 'hi', 'step': 'step'}[attr]] or VNone)]
-        if t in ('seq', 'list', 'dict'):
+        if t in ('seq', 'list', 'dict', 'hlist'):
             return [('val', st, Val('func', None, listmethod=attr, bound=v, target=node))]
         if t == 'E':
             raise Unsupported('attribute %s of a published expression' % attr)
         if t == 'super':
-            q = self.repo.resolve_method_after(v.a['cls'], v.a['after'], attr) if hasattr(self.repo, 'resolve_method_after') else None
+            obj = v.a['obj']
+            if obj is None or obj.ty not in ('obj', 'cls'):
+                raise Unsupported('super() without self')
+            dyn = obj.a['cls'] if obj.ty == 'obj' else obj.a['name']
+            mro = self.repo.mro(dyn)
+            idx = mro.index(v.a['cls']) if v.a['cls'] in mro else -1
+            for b in mro[idx + 1:]:
+                if b + '.' + attr in self.repo.funcs:
+                    return [('val', st, Val('func', None, qual=b + '.' + attr, bound=obj))]
+                if b.startswith('builtins.'):
+                    return [('val', st, Val('func', None, builtinmethod=(b, attr), bound=obj))]
             raise Unsupported('super().%s' % attr)
         raise Unsupported('attribute %s on %s' % (attr, t))
 
